@@ -104,6 +104,10 @@ def float_op(proc: str, x: float, p: Dict[str, Any], ctx: Dict[str, Any], log: l
         log.append(("VCtxWrite", {}))
         ctx["a"] = x + 0.25
         return x + 1.0
+    if proc == "VItemSum":
+        total = sum(float(v) for v in p["items"]) if p["items"] is not None else 0.0
+        log.append(("VItemSum", {"total": total}))
+        return x + total
     if proc == "VNestWrite":
         log.append(("VNestWrite", {"nest": p["nest"]}))
         ctx["nest"] = p["nest"] if p["nest"] is not None else {"alpha": 1, "limits": {"lo": 0, "hi": 9}}
